@@ -71,7 +71,17 @@ class Model:
                 raise PyRaise(ExcVal("ValidationError", ("schema mismatch",)))
             model.validated.append(s)
             return Unknown(f"model_validate({s})")
-        return Obj(None, {"model_validate": model_validate, "model_fields": {}}, tag="schema")
+        @stub
+        def model_validate_json(interp, args, kwargs):
+            # pydantic's own parser over the text: it accepts or rejects on its own terms (not json.loads'), so what comes
+            # back is *not* "model_validate of the JSON that json parsing gives" — it is recorded under its own name
+            s = model.canon(_sym(args[0]))
+            c = interp.o.choose(2, f"model_validate_json({s}) succeeds", key=("validate_json", s))
+            if c == 1:
+                raise PyRaise(ExcVal("ValidationError", ("schema mismatch",)))
+            return Unknown(f"model_validate_json({s})")
+        return Obj(None, {"model_validate": model_validate, "parse_obj": model_validate, "model_validate_json": model_validate_json, "parse_raw": model_validate_json,
+                          "model_fields": {}}, tag="schema")
 
 
 def run(p, led, tier):
